@@ -9,8 +9,10 @@
 
   Model: SH/Model/Engine.lean (one step = one critical section of internal/sqlite's Engine; SQLite = committed value
   `com` + value inside the open write transaction `tx`; the binlog = records with end offsets; `dur` = the prefix the
-  binlog has announced through Commit, i.e. fsynced; `crash d` keeps `com` and the binlog records ending at or before
-  `d` for any `dur ≤ d ≤ len`).  Helper lemmas and the invariant: SH/Lemmas/Engine.lean.
+  binlog has announced through Commit, i.e. fsynced; `crash d torn` keeps `com` and the binlog records ending at or
+  before `d` for any `dur ≤ d ≤ len`; `torn` = the kill hit the binlog writer inside write(2), the file ends with a
+  partial record: the CURRENT code then refuses to reopen the file and a master does not come up, field `down`,
+  known finding restart-failed-torn-tail).  Helper lemmas and the invariant: SH/Lemmas/Engine.lean.
 
   A history is an arbitrary `List Op` (writes ok / failing, must-commit-now writes, binlog commits at any offset,
   commit-timer ticks, reader deliveries, replica appends, clock knob, close, crash with any surviving length, ready),
@@ -171,7 +173,7 @@ theorem ackedW_mono (s : St) (op : Op) (id : Nat) (h : id ∈ s.ackedW) : id ∈
           id ∈ (if t.dbo ≤ t.ci then ({ t with com := t.tx, closed := true }, "ok") else ({ t with closed := true }, "err")).1.ackedW := by
         intro t ht; split <;> exact ht
       exact htail _ this
-  | crash d torn => simp only [step]; split; exact h; exact h
+  | crash d torn => simp only [step]; split; exact h; split; exact h; exact h
   | ready =>
     simp only [step, readyStep]; split
     · simp only [flushQ, foldl_flush, flushed]; exact h
@@ -182,15 +184,122 @@ theorem ackedW_mono_run (ops : List Op) : ∀ (s : St) (id : Nat), id ∈ s.acke
   | nil => intro s id h; exact h
   | cons op t ih => intro s id h; exact ih _ id (ackedW_mono s op id h)
 
-/-- **acked writes are present after any crash + restart** — take any history `h1` after which write `id` is
-    acknowledged, continue it with any history `h2` (crashes at any point keeping any binlog length ≥ the fsynced one,
-    restarts, re-deliveries, further writes…): whenever the binlog reader has delivered everything and the apply queue
-    is flushed (the engine has caught up), the row of `id` is in the database. -/
-theorem acked_present_after_restart (w r : Bool) (l : List (Bool × Nat × Nat)) (hl : ∀ x ∈ l, 0 < x.2.2)
-    (h1 h2 : List Op) (id : Nat) (hack : id ∈ (run (fresh w r l) h1).ackedW) :
+/-! ### histories without a torn binlog tail -/
+
+def isTorn : Op → Bool
+  | .crash _ true => true
+  | _ => false
+
+/-- no crash of the history tore the last binlog write ("no partial record after the last complete event") -/
+def noTorn (ops : List Op) : Bool := ops.all (fun op => !isTorn op)
+
+theorem down_step (s : St) (op : Op) (h : s.down = false) (hop : isTorn op = false) : (step s op).1.down = false := by
+  have hcs : ∀ (t : St) (k : Nat), t.down = false → (commitStep t k).down = false := by
+    intro t k ht
+    unfold commitStep
+    split
+    · exact ht
+    · split
+      · simp only [flushQ, foldl_flush, flushed, notify]; exact ht
+      · split
+        · exact ht
+        · exact ht
+  cases op with
+  | doOp i ln extra k =>
+    simp only [step, doOp]
+    split
+    · exact h
+    · cases k <;> simp only
+      · simp only [doWrite]
+        split
+        · exact h
+        · split
+          · split
+            · exact h
+            · exact h
+          · exact h
+      all_goals first | exact h | (simp only [doRead]; split; exact h; exact h)
+  | doNow i ln extra =>
+    simp only [step, doNow]
+    split
+    · exact h
+    · split
+      · exact h
+      · split
+        · exact h
+        · have := hcs (park (writeOK s i ln extra) i (s.dbo + plen ln) false) (s.dbo + plen ln + extra) h
+          split
+          · exact this
+          · exact this
+  | commit k => simp only [step]; split; exact h; exact hcs _ _ h
+  | tx => simp only [step, txStep]; split; exact h; split; exact h; split; exact h; exact h
+  | dApply n =>
+    simp only [step, deliverApply]; split; exact h; split; exact h; split; exact h; exact h
+  | dSkip n =>
+    simp only [step, deliverSkip]; split; exact h; split; exact h; split; exact h; exact h
+  | append l => simp only [step]; split; exact h; exact h
+  | hold b => exact h
+  | close =>
+    simp only [step, closeStep]
+    split
+    · exact h
+    · have : (if s.repl then s else commitStep s s.len).down = false := by
+        split
+        · exact h
+        · exact hcs _ _ h
+      have htail : ∀ t : St, t.down = false →
+          (if t.dbo ≤ t.ci then ({ t with com := t.tx, closed := true }, "ok") else ({ t with closed := true }, "err")).1.down = false := by
+        intro t ht; split <;> exact ht
+      exact htail _ this
+  | crash d torn =>
+    cases torn with
+    | true => simp [isTorn] at hop
+    | false =>
+      simp only [step]
+      split
+      · exact h
+      · simp only [Bool.false_and, Bool.false_eq_true, if_false]; rfl
+  | ready =>
+    simp only [step, readyStep]; split
+    · simp only [flushQ, foldl_flush, flushed]; exact h
+    · exact h
+
+theorem down_run : ∀ (ops : List Op) (s : St), s.down = false → noTorn ops = true → (run s ops).down = false := by
+  intro ops
+  induction ops with
+  | nil => intro s h _; exact h
+  | cons op t ih =>
+    intro s h hn
+    simp only [noTorn, List.all_cons, Bool.and_eq_true, Bool.not_eq_true'] at hn
+    exact ih _ (down_step s op h hn.1) (by simpa [noTorn] using hn.2)
+
+/-- **the engine comes up after every crash that left no partial record** — in a history whose crashes never tore the
+    last binlog write, OpenEngine never fails (`down` stays false). -/
+theorem engine_up_partial (w r : Bool) (l : List (Bool × Nat × Nat)) (ops : List Op) (hn : noTorn ops = true) :
+    (run (fresh w r l) ops).down = false :=
+  down_run ops _ rfl hn
+
+/-
+  Full statement (FALSE for the current code, see `torn_tail_restart_fails` below — known finding
+  restart-failed-torn-tail):
+    theorem acked_present_after_restart (h1 h2) (id) (hack : id ∈ (run s0 h1).ackedW) :
+      let s := run s0 (h1 ++ h2);  s.down = false ∧ (s.rest = [] → flat s.aq = [] → id ∈ s.tx.rows)
+  for EVERY history, including crashes that tear the last binlog write. A torn tail makes OpenEngine fail, so the
+  acknowledged write is not available until the file is repaired by hand. Proved: the statement under the explicit
+  hypothesis that no crash left a partial record after the last complete event.
+-/
+/-- **acked writes are present after any crash + restart (partial: no torn binlog tail)** — take any history `h1`
+    after which write `id` is acknowledged, continue it with any history `h2` (crashes at any point keeping any binlog
+    length ≥ the fsynced one, restarts, re-deliveries, further writes…), none of whose crashes tore the last binlog
+    write: the engine is never left down by a failed restart, and whenever the binlog reader has delivered everything
+    and the apply queue is flushed (the engine has caught up), the row of `id` is in the database. -/
+theorem acked_present_after_restart_partial (w r : Bool) (l : List (Bool × Nat × Nat)) (hl : ∀ x ∈ l, 0 < x.2.2)
+    (h1 h2 : List Op) (id : Nat) (hack : id ∈ (run (fresh w r l) h1).ackedW) (hn : noTorn (h1 ++ h2) = true) :
     let s := run (fresh w r l) (h1 ++ h2)
-    s.rest = [] → flat s.aq = [] → id ∈ s.tx.rows := by
-  intro s hrest hq
+    s.down = false ∧ (s.rest = [] → flat s.aq = [] → id ∈ s.tx.rows) := by
+  intro s
+  refine ⟨engine_up_partial w r l _ hn, ?_⟩
+  intro hrest hq
   have h : Inv s := run_inv _ _ (fresh_inv w r l hl)
   have hid : id ∈ s.ackedW := by
     show id ∈ (run (fresh w r l) (h1 ++ h2)).ackedW
@@ -244,13 +353,19 @@ theorem crash_keeps_durable_events (w r : Bool) (l : List (Bool × Nat × Nat)) 
   invariant — that is fsbinlog's own contract (C18). Proved instead: whenever the reader has delivered everything and
   the queue is flushed, the database holds exactly the events of the binlog, in binlog order.
 -/
-/-- **restart_catches_up (partial)** — after any history (in particular: any crash followed by a restart), once the
-    binlog reader has delivered every record and the apply queue has been flushed, the write transaction holds exactly
-    the events of the whole binlog this process was given, in order, and the in-memory offset is the end of it. -/
-theorem restart_catches_up_partial (w r : Bool) (l : List (Bool × Nat × Nat)) (hl : ∀ x ∈ l, 0 < x.2.2) (ops : List Op) :
+/-- **restart_catches_up (partial)** — after any history whose crashes left no partial record after the last complete
+    event (in particular: any such crash followed by a restart), the engine is up, and once the binlog reader has
+    delivered every record and the apply queue has been flushed, the write transaction holds exactly the events of the
+    whole binlog this process was given, in order, and its offset row covers all of them. (With a torn tail the
+    current code does not restart at all: `torn_tail_restart_fails`.) -/
+theorem restart_catches_up_partial (w r : Bool) (l : List (Bool × Nat × Nat)) (hl : ∀ x ∈ l, 0 < x.2.2) (ops : List Op)
+    (hn : noTorn ops = true) :
     let s := run (fresh w r l) ops
-    s.rest = [] → flat s.aq = [] → s.tx.rows = evIds (allRecs s) ∧ ∀ rec ∈ allRecs s, rec.isEv = true → rec.eo ≤ s.tx.off := by
-  intro s hrest hq
+    s.down = false ∧
+    (s.rest = [] → flat s.aq = [] → s.tx.rows = evIds (allRecs s) ∧ ∀ rec ∈ allRecs s, rec.isEv = true → rec.eo ≤ s.tx.off) := by
+  intro s
+  refine ⟨engine_up_partial w r l ops hn, ?_⟩
+  intro hrest hq
   have h : Inv s := run_inv ops _ (fresh_inv w r l hl)
   have e : allRecs s = s.done := by simp [allRecs, hrest, hq]
   rw [e]
@@ -265,6 +380,7 @@ def demoOps : List Op :=
   [.dSkip 24, .commit 24, .ready, .doOp 1 12 0 .ok, .doOp 2 13 20 .ok, .commit 36, .tx, .commit 72,
    .doOp 3 12 0 .cbfail, .doOp 4 12 0 .ok, .crash 72 false, .dApply 1, .dSkip 20, .commit 72, .ready]
 
+example : noTorn demoOps = true := by decide
 example : (run (fresh true false [(false, 0, 24)]) (demoOps.take 7)).ptx = true := by decide
 example : (run (fresh true false [(false, 0, 24)]) (demoOps.take 7)).ackedW = [1] := by decide
 example : (run (fresh true false [(false, 0, 24)]) (demoOps.take 8)).com = ⟨[1, 2], 52⟩ := by decide
@@ -281,18 +397,26 @@ def demoOps2 : List Op :=
 example : let s := run (fresh true false [(false, 0, 24)]) demoOps2
     s.q = true ∧ s.tx = ⟨[1], 36⟩ ∧ s.aqOff = 48 := by decide
 
-/-! ### the defect fixed by fixes/C17-binlog-torn-tail.diff -/
+/-! ### known finding restart-failed-torn-tail -/
 
-/-- with the fix a torn tail changes nothing: the restart proceeds exactly as after a crash that left no partial record -/
-theorem torn_tail_is_cut (s : St) (d : Nat) : step s (.crash d true) = step s (.crash d false) := rfl
-
-/-- before the fix (`stepOld`): write 1 is acknowledged in wait-for-commit mode, the process is killed inside its next
-    binlog write (the file ends with a partial record): the engine does not come up again (`open-error`), so the
-    acknowledged write is not available — while the fixed engine restarts and holds it. -/
-example :
+/-- **a torn binlog tail makes the restart fail (current code)** — write 1 is acknowledged in wait-for-commit mode, the
+    process is killed inside its next binlog write (the last file ends with a partial record): OpenEngine fails
+    (`open-error`, `down`), so the acknowledged write is not available although its event is durable in the binlog;
+    the same kill without the partial record restarts and holds the write. This is why the restart theorems above carry
+    the hypothesis `noTorn`. -/
+theorem torn_tail_restart_fails :
     let s := run (fresh true false [(false, 0, 24)]) [.dSkip 24, .commit 24, .ready, .doOp 1 12 0 .ok, .commit 36, .doOp 2 12 0 .ok]
-    s.ackedW = [1] ∧ s.com = ⟨[], 0⟩ ∧ (stepOld s (.crash 36 true)).2 = "open-error" ∧ (stepOld s (.crash 36 true)).1.closed = true ∧
-    (run s [.crash 36 true, .dSkip 24, .dApply 1, .commit 36, .ready]).tx = ⟨[1], 36⟩ ∧
-    (run s [.crash 36 true, .dSkip 24, .dApply 1, .commit 36, .ready]).closed = false := by decide
+    s.ackedW = [1] ∧ s.down = false ∧
+    (step s (.crash 36 true)).2 = "open-error" ∧ (step s (.crash 36 true)).1.down = true ∧
+    (step s (.crash 36 true)).1.closed = true ∧
+    (run s [.crash 36 false, .dSkip 24, .dApply 1, .commit 36, .ready]).tx = ⟨[1], 36⟩ ∧
+    (run s [.crash 36 false, .dSkip 24, .dApply 1, .commit 36, .ready]).down = false := by decide
+
+/-- a replica opens no binlog writer: a torn tail does not stop it -/
+example : (step (run (fresh false true []) [.ready]) (.crash 0 true)).1.down = false := by decide
+
+/-- documented alternative, NOT the code (`stepFixed` = fixes/C17-binlog-torn-tail.diff, not applied): if the writer cut
+    the torn tail off, a torn tail would make no difference to the restart -/
+theorem torn_tail_cut_by_unapplied_patch (s : St) (d : Nat) : stepFixed s (.crash d true) = stepFixed s (.crash d false) := rfl
 
 end SH.Engine
